@@ -142,6 +142,16 @@ def gen_project(rng, max_files=5, max_pats=4, shared_lines=True, mixed_endings=T
         layout.append({"name": "LICENSE", "raws": ["Copyright (c) YYYY"], "sep": "\n",
                        "lines": [("noise", "MIT License"), ("occ", [("Copyright (c) YYYY", "", " The Authors")], ""), ("noise", "Permission is hereby granted")],
                        "mixed": False, "final_newline": True, "bom": False})
+    glob_groups = {}
+    if rng.random() < 0.2:
+        # one GLOB key covering an ordinary file and hidden ones (a dot-directory, a dot-file): `**/*.yml` (pathlib's glob, which bumpver
+        # uses, matches hidden files like any other; the README's examples configure `.github/...` style files)
+        gnames = ["deploy/app.yml"] + rng.sample([".github/workflows/release.yml", ".ci.yml", "tools/.hidden/x.yml"], rng.randint(1, 3))
+        graws = rng.sample([t for t in templates if t in ("{version}", "image: app:{version}", "ver={version}")] or ["{version}"], 1)
+        for gname in gnames:
+            glines = [("noise", "# yaml"), ("occ", [(graws[0], rng.choice(["image: app:", "tag: ", "  - "]), rng.choice(["", " # pinned"]))], ""), ("noise", "done: true")]
+            layout.append({"name": gname, "raws": list(graws), "sep": "\n", "lines": glines, "mixed": False, "final_newline": True, "bom": False})
+        glob_groups["**/*.yml"] = gnames
     pr = {"vp": vpat, "old_state": old, "new_state": new, "flags": flags, "date": [d2.year, d2.month, d2.day], "layout": layout,
           "old": refimpl.render(tree, old), "new": refimpl.render(tree, new),
           "old_vinfo": vinfo_of_state(old), "new_vinfo": vinfo_of_state(new)}
@@ -155,6 +165,20 @@ def gen_project(rng, max_files=5, max_pats=4, shared_lines=True, mixed_endings=T
     # a GLOB key that also matches the config file itself (`"*.toml" = ['^version = "{version}"$']`, with a [project] table holding
     # such a line): its patterns are merged with the implicit current_version pattern of the config file
     pr["glob_self"] = pr["implicit_self"] and rng.random() < 0.4
+    pr["glob_groups"] = glob_groups
+    # ONE file reachable through TWO differently spelled keys that carry different patterns: a literal non-normalised path and a glob
+    # over its directory (bumpver merges the entries of one file; every pattern must be applied and the file written once)
+    pr["two_keys"] = None
+    cands = [f for f in layout if "/" in f["name"] and len(f["raws"]) >= 2 and not any(f["name"] in g for g in glob_groups.values())]
+    if cands and rng.random() < 0.5:
+        f = rng.choice(cands)
+        d, base = f["name"].rsplit("/", 1)
+        ext = base.rsplit(".", 1)[-1] if "." in base else None
+        g = d + "/*." + ext if ext else d + "/*"
+        import fnmatch
+        others = [x["name"] for x in layout if x is not f and "/" in x["name"] and x["name"].rsplit("/", 1)[0] == d and fnmatch.fnmatch(x["name"].rsplit("/", 1)[1], g.rsplit("/", 1)[1])]
+        if not others:
+            pr["two_keys"] = {"name": f["name"], "literal": "./" + f["name"], "glob": g, "split": rng.randint(1, len(f["raws"]) - 1)}
     pr["key_alias"] = {}
     for f in layout:
         r = rng.random()
@@ -269,7 +293,19 @@ def toml_config(pr, extra=""):
         out.append('"bumpver.toml" = [\'current_version = "{version}"\']')
     if glob_self:
         out.append('"*.toml" = [\'^version = "{version}"$\']')
+    done_groups = set()
     for path, pairs in pr["file_patterns"]:
+        group = [g for g, names in (pr.get("glob_groups") or {}).items() if path in names] if variants else []
+        if group:
+            if group[0] not in done_groups:
+                done_groups.add(group[0])
+                out.append("%s = [%s]" % (q(group[0]), ", ".join(q(raw) for _vp, raw in pairs)))
+            continue
+        tk = pr.get("two_keys") if variants else None
+        if tk and tk["name"] == path:
+            out.append("%s = [%s]" % (q(tk["literal"]), ", ".join(q(raw) for _vp, raw in pairs[:tk["split"]])))
+            out.append("%s = [%s]" % (q(tk["glob"]), ", ".join(q(raw) for _vp, raw in pairs[tk["split"]:])))
+            continue
         key = pr.get("key_alias", {}).get(path, path) if variants else path
         out.append("%s = [%s]" % (q(key), ", ".join(q(raw) for _vp, raw in pairs)))
     return "\n".join(x for x in out if x) + "\n"
